@@ -499,6 +499,11 @@ def minimize_subcircuits(
                 filtered_outputs_lst.append(output)
                 found_patterns[pattern] = output
 
+        # negation of a cut leaf can be taken neither from the leaf itself nor from
+        # the synthesized subcircuit, so such subcircuit is left as it is
+        if any(leaf in inputs_set for leaf in outputs_negation_mapping.values()):
+            continue
+
         if not filtered_outputs:
             logger.debug("All outputs have trivial input patterns")
             for output in subcircuit.outputs:
